@@ -129,6 +129,14 @@ class VObj(V):
         self.t = t
 
 
+class VExcVal(V):
+    """an exception instance held as a value (errback reasons, Deferred results): class code only"""
+    kind = 'exc'
+
+    def __init__(self, t):
+        self.t = t
+
+
 class VTuple(V):
     kind = 'tuple'
 
